@@ -10,23 +10,41 @@ from ..core import Broken, Ctx, Violation
 PROP_FILE = "Properties/C04.v"
 
 TRUSTED = [
-    "translator/c04.py (shape of set_random_seed -> src_srs_cfg; seed-forwarding call chain of every mode -> "
-    "src_links; draw sites inside/outside the bracket of every model function with a `seed` parameter -> "
-    "src_seeded_models; np.random.seed/set_state sites -> src_seed_sites; numba-compiled draws -> src_numba_sites; "
-    "fails closed on other shapes; helper calls are followed by NAME inside pyxel/models, an over-approximation)",
-    "Section variables of Model/Rng.v: the generator is ANY (gen, val, seed_gen : Z -> gen, next : Z -> gen -> gen * val); "
-    "the only assumption is that seeding and drawing are functions of their arguments (MT19937 itself is not modelled)",
+    "translator/c04.py (shape of set_random_seed -> src_srs_cfg; for every running mode the seed-forwarding call chain "
+    "AND the four doors a seed comes through - constructor, YAML builder, attribute setter, override key - as "
+    "(mode, entry, link, XId|XTruthy|XDrop) -> src_links; draw sites inside/outside the bracket, bare reseeding, "
+    "iterations over hash-ordered collections and truthiness tests on `seed` of every model function with a `seed` "
+    "parameter -> src_seeded_models; np.random.seed/set_state sites -> src_seed_sites; truthiness tests on any seed in the "
+    "running modes / run.py / configuration builders / models -> src_seed_truthiness; how each branch of "
+    "ArchipelagoDataTree._build iterates over the created islands -> src_island_build; numba-compiled draws -> "
+    "src_numba_sites; fails closed on other shapes; helper calls are followed by NAME inside pyxel/models, an "
+    "over-approximation; set expressions are recognised syntactically: literals, set()/frozenset(), comprehensions, "
+    "set methods, `a.keys() & b`, names bound to those)",
+    "Section variables of Model/Rng.v: the generator is ANY (gen, val, seed_gen : Z -> gen, next : Z -> gen -> gen * val) "
+    "and the process is ANY (swap : Z -> bool, which hash-ordered sites come out swapped); the only assumption is that "
+    "seeding and drawing are functions of their arguments (MT19937 itself is not modelled)",
     "correspondence harness: harness/props/c04.py session generator, harness/drivers/c04.py (sha1 of "
-    "np.random.get_state() at probe points, renumbered by first occurrence), probes/verif_probes.py rng_probe/fail/write",
+    "np.random.get_state() at probe points, renumbered by first occurrence; child interpreters started with their own "
+    "PYTHONHASHSEED, the generator state carried from one to the next; wrappers installed from outside around "
+    "np.random.seed / np.random.set_state (bracket trace with thread and seed), pygmo.island.__init__ (planned delays, "
+    "finishing order) and ArchipelagoDataTree.__init__/_build (parallel flag, seed of every island)), "
+    "probes/verif_probes.py rng_probe/fail/write",
     "modelled, not verified: np.random.get_state()/set_state() capture and restore the whole legacy generator; distinct "
     "hashed states / draw values are treated as distinct (no collisions); a run's result is a function of its "
-    "configuration and of the values it draws; pygmo's own generator is deterministic for a fixed pygmo_seed "
-    "(checked only by repetition); dask runs under the synchronous scheduler (thread interleavings belong to C07)",
+    "configuration and of the values it draws (results are compared one way only: equalities the model forces must "
+    "hold); pygmo's own generator is deterministic for a fixed pygmo_seed (checked only by repetition); dask runs under "
+    "the synchronous scheduler; the bracket theorems speak about one thread of control - the harness checks in Coq that "
+    "every observed bracket trace is LIFO, thread interleavings themselves belong to C07",
 ]
 
 SEEDS = [0, 1, 2 ** 32 - 1]
 CALL_MODELS = ["shot_noise", "shot_noise_normal", "simple_conversion", "simple_dark_current",
-               "fixed_pattern_noise", "output_node_noise", "ktc_noise"]
+               "fixed_pattern_noise", "output_node_noise", "ktc_noise", "output_node_noise_cmos",
+               # formerly covered by the bracket table only
+               "dark_current", "charge_deposition", "charge_deposition_in_mct", "cosmix",
+               "radiation_induced_dark_current", "dark_current_rule07", "dark_current_saphira",
+               "readout_noise_saphira", "conversion_with_qe_map", "nghxrg", "nghxrg2"]
+SLOW_MODELS = ("cosmix",)
 ROW = {
     "shot_noise": "photon_collection.shot_noise.shot_noise",
     "shot_noise_normal": "photon_collection.shot_noise.shot_noise",
@@ -37,6 +55,16 @@ ROW = {
     "output_node_noise": "charge_measurement.readout_noise.output_node_noise",
     "ktc_noise": "charge_measurement.reset_noise.ktc_noise",
     "output_node_noise_cmos": "charge_measurement.readout_noise.output_node_noise_cmos",
+    "charge_deposition": "charge_generation.charge_deposition.charge_deposition",
+    "charge_deposition_in_mct": "charge_generation.charge_deposition.charge_deposition_in_mct",
+    "cosmix": "charge_generation.cosmix.cosmix.cosmix",
+    "radiation_induced_dark_current": "charge_generation.dark_current_induced.radiation_induced_dark_current",
+    "dark_current_rule07": "charge_generation.dark_current_rule07.dark_current_rule07",
+    "dark_current_saphira": "charge_generation.dark_current_saphira.dark_current_saphira",
+    "readout_noise_saphira": "charge_measurement.readout_noise.readout_noise_saphira",
+    "conversion_with_qe_map": "charge_generation.photoelectrons.conversion_with_qe_map",
+    "nghxrg": "charge_measurement.nghxrg.nghxrg.nghxrg",
+    "nghxrg2": "charge_measurement.nghxrg.nghxrg.nghxrg",
 }
 GROUPS = ["photon_collection", "charge_generation", "charge_collection", "charge_measurement"]
 BY_GROUP = {
@@ -45,6 +73,11 @@ BY_GROUP = {
     "charge_collection": ["fixed_pattern_noise"],
     "charge_measurement": ["output_node_noise", "ktc_noise"],
 }
+ENTRIES = ["ctor", "setter", "override", "yaml"]
+# keys of an item that say HOW it is run, not WHAT is run: two items that differ only in these are the
+# same configuration and must give the same result
+NON_SEMANTIC = ("via", "stale_seed", "proc", "delay", "predelay", "parallel", "cfg", "yaml_null")
+NON_SEMANTIC_ENTRY = ("seed_via", "stale_seed")
 
 
 def mrow(short: str) -> str:
@@ -107,21 +140,179 @@ def session_of(r, run_item, n=3):
     return items
 
 
+def probe_pipeline(r, own_seed=None):
+    """A small pipeline whose generator use is fully visible: probes that draw, and stochastic models."""
+    pipe = [dict(k="probe", group="photon_collection", draw=r.choice([1, 2])),
+            dict(k="model", model="shot_noise"), dict(k="collect"),
+            dict(k="probe", group="charge_measurement", draw=r.choice([1, 3]))]
+    if own_seed is not None:
+        pipe.insert(2, dict(k="model", model="simple_conversion", seed=own_seed))
+    return pipe
+
+
+def closed_pipeline(r, seeds, seed_via="arguments"):
+    """Every stochastic model carries its own seed (taken from `seeds`); no probe draws."""
+    ms = ["shot_noise", "simple_conversion", "fixed_pattern_noise", "ktc_noise"]
+    pipe = []
+    for i, m in enumerate(ms):
+        if m == "fixed_pattern_noise":
+            pipe.append(dict(k="collect"))
+        if m == "ktc_noise":
+            pipe.append(dict(k="measure"))
+        e = dict(k="model", model=m, seed=seeds[i % len(seeds)])
+        if seed_via != "arguments":
+            e["seed_via"] = seed_via
+        pipe.append(e)
+    pipe.append(dict(k="probe", group="charge_measurement", draw=0))
+    return pipe
+
+
+def det_cal_pipeline():
+    """Deterministic pipeline for multi-island calibrations (threads: no draw from the shared generator)."""
+    return [dict(k="model", model="simple_conversion_det", name="qe", nodraw=True), dict(k="collect")]
+
+
+def gen_entry_sessions(r, quick: bool):
+    """(b) every way a seed reaches a run x boundary seeds."""
+    S = []
+    modes = [("exposure", {}), ("observation", dict(values=[1, 2])), ("observation", dict(values=[1, 2], dask=True))]
+    for op, extra in modes:
+        for seed in SEEDS + [None]:
+            if quick and op == "observation" and seed == 1:
+                continue
+            pipe = probe_pipeline(r)
+            base = dict(op=op, pipeline=pipe, pipeline_seed=seed, **extra)
+            if op == "exposure":
+                base["steps"] = r.choice([1, 2])
+            items = []
+            for k, via in enumerate(ENTRIES):
+                if k:
+                    items += [dict(op="seed", j=r.randrange(2 ** 32))] if k % 2 else [dict(op="draws", k=r.randrange(1, 4))]
+                it = dict(copy.deepcopy(base), via=via)
+                if via in ("setter", "override"):
+                    it["stale_seed"] = 77 if seed != 77 else 78
+                if via == "yaml" and seed is None:
+                    it["yaml_null"] = r.random() < 0.5
+                items.append(it)
+            S.append(dict(kind=f"entry_{op}{'_dask' if extra.get('dask') else ''}", items=items))
+    # calibration (1 island): the pipeline seed through every door
+    for seed in ([0] if quick else [0, 1, 2 ** 32 - 1]):
+        pipe = [dict(k="model", model="shot_noise"), dict(k="model", model="simple_conversion", name="qe"), dict(k="collect")]
+        base = dict(op="calibration", pipeline=pipe, pipeline_seed=seed, pygmo_seed=r.randrange(100000), pop=7,
+                    generations=1, evolutions=1)
+        items = []
+        for k, via in enumerate(ENTRIES if not quick else ["setter", "yaml"]):
+            if k:
+                items.append(dict(op="seed", j=r.randrange(2 ** 32)))
+            it = dict(copy.deepcopy(base), via=via)
+            if via in ("setter", "override"):
+                it["stale_seed"] = 77
+            items.append(it)
+        S.append(dict(kind="entry_calibration", items=items))
+    # model `seed` arguments: ModelFunction arguments vs override key, boundary values; sweep over the seed
+    for sv in ([SEEDS] if quick else [SEEDS, [0, 0, 0, 0], [2 ** 32 - 1, 0, 1]]):
+        a = dict(op="exposure", pipeline=closed_pipeline(r, sv), steps=1, pipeline_seed=None)
+        b2 = dict(op="exposure", pipeline=closed_pipeline(r, sv, "override"), steps=1, pipeline_seed=None)
+        S.append(dict(kind="entry_model_seed", items=[copy.deepcopy(a), dict(op="seed", j=r.randrange(2 ** 32)),
+                                                      copy.deepcopy(b2), dict(op="draws", k=2), copy.deepcopy(a)]))
+    for dask in ([False] if quick else [False, True]):
+        pipe = closed_pipeline(r, [5, 6, 7, 8])
+        idx = [i for i, e in enumerate(pipe) if e["k"] == "model"][r.randrange(4)]
+        ob = dict(op="observation", dask=dask, pipeline=pipe, values=[], pipeline_seed=None,
+                  sweep_seed=dict(index=idx, values=SEEDS))
+        S.append(dict(kind="entry_sweep_seed", items=[copy.deepcopy(ob), dict(op="seed", j=r.randrange(2 ** 32)),
+                                                      copy.deepcopy(ob)]))
+    return S
+
+
+def gen_xproc_sessions(r, quick: bool):
+    """(a) the same seeded items in fresh interpreter processes with different PYTHONHASHSEED values."""
+    S = []
+    nproc = 3 if quick else 4
+    models = [m for m in CALL_MODELS if not (quick and m in SLOW_MODELS)]
+    r.shuffle(models)
+    ngroups = 3 if quick else 5
+    groups = [models[i::ngroups] for i in range(ngroups)]
+    for gi, grp in enumerate(groups):
+        procs = [0, 1 + r.randrange(100)] + [r.randrange(2 ** 32) for _ in range(nproc - 2)]
+        calls = [dict(op="call", model=m, seed=gen_seed(r)) for m in grp]
+        items = []
+        for pi in range(nproc):
+            if pi:
+                items.append(dict(op="seed", j=r.randrange(2 ** 32), proc=pi) if pi % 2 else dict(op="draws", k=pi, proc=pi))
+            items += [dict(copy.deepcopy(c), proc=pi) for c in calls]
+        S.append(dict(kind="xproc_calls", procs=procs, items=items))
+    # whole runs: pipeline seed only / model seeds only, incl. the HxRG noise generator driven by the pipeline seed
+    # distinct pipeline seeds: two DIFFERENT configurations started from the same seed could draw the same
+    # numbers for a while, an equality the free generator of the model does not predict
+    ps = r.sample(SEEDS + [r.randrange(2, 2 ** 32 - 1), r.randrange(2, 100000)], 4)
+    runs = [
+        dict(op="exposure", pipeline=probe_pipeline(r, own_seed=gen_seed(r)), steps=2, pipeline_seed=ps[0]),
+        dict(op="exposure", det="cmos", rows=16, temp=100.0, steps=1, pipeline_seed=ps[1],
+             pipeline=[dict(k="model", model="simple_conversion"), dict(k="collect"), dict(k="measure"),
+                       dict(k="model", model="nghxrg")]),
+        dict(op="observation", dask=False, pipeline=probe_pipeline(r), values=[1, 2], pipeline_seed=ps[2]),
+    ]
+    if not quick:
+        runs.append(dict(op="observation", dask=True, pipeline=probe_pipeline(r), values=[1, 2], pipeline_seed=ps[3]))
+        runs.append(dict(op="exposure", pipeline=closed_pipeline(r, SEEDS), steps=1, pipeline_seed=None))
+    procs = [0, 1 + r.randrange(100), r.randrange(2 ** 32)]
+    items = []
+    for pi in range(3):
+        if pi:
+            items.append(dict(op="seed", j=r.randrange(2 ** 32), proc=pi))
+        items += [dict(copy.deepcopy(x), proc=pi) for x in runs]
+    S.append(dict(kind="xproc_runs", procs=procs, items=items))
+    return S
+
+
+def gen_island_sessions(r, quick: bool):
+    """(c) several islands, parallel and sequential creation, forced out-of-order completion."""
+    S = []
+    for c in range(1 if quick else 3):
+        n = r.choice([3, 4]) if c else 3
+        # the optimiser seed at its boundaries too (0 is falsy, 100000 is the largest the setter accepts)
+        pg_seed = [0, 100000, r.randrange(1, 100000)][c % 3]
+        cal = dict(op="calibration", pipeline=det_cal_pipeline(), pipeline_seed=None, pygmo_seed=pg_seed,
+                   pop=r.choice([7, 8]), generations=1, evolutions=1, islands=n,
+                   topology="unconnected" if c != 1 else "ring")
+        step = 0.3
+        rev = [round(step * (n - 1 - k), 2) for k in range(n)]          # the first created finishes last
+        mid = [round(step * ((k * 2 + 1) % n), 2) for k in range(n)]     # some other order
+        fwd_ = [round(step * k, 2) for k in range(n)]                    # the first created finishes first
+        items = [dict(copy.deepcopy(cal), delay=fwd_), dict(op="seed", j=r.randrange(2 ** 32)),
+                 dict(copy.deepcopy(cal), delay=rev, predelay=[round(0.15 * (n - 1 - k), 2) for k in range(n)]),
+                 dict(copy.deepcopy(cal), parallel=False, delay=[0.0] * n)]
+        if not quick:
+            items.insert(3, dict(copy.deepcopy(cal), delay=mid))
+            items.append(dict(copy.deepcopy(cal), delay=[0.0] * n))          # whatever order the threads take
+        S.append(dict(kind="cal_islands", items=items))
+    return S
+
+
 def gen_sessions(ctx: Ctx, budget: int, salt="cases"):
     r = ctx.rng(salt)
+    quick = ctx.quick
     S = []
-    # direct calls of every drivable seeded model: same seed / different prior state; seed None
+    # direct calls of every seeded model: same seed / different prior state; seed None
     for m in CALL_MODELS:
         s = gen_seed(r)
         call = dict(op="call", model=m, seed=s)
         un = dict(op="call", model=m, seed=None)
-        items = [copy.deepcopy(call), dict(op="seed", j=r.randrange(2 ** 32)), copy.deepcopy(call),
-                 dict(op="draws", k=r.randrange(1, 5)), copy.deepcopy(call), copy.deepcopy(un),
-                 dict(op="seed", j=r.randrange(2 ** 32)), copy.deepcopy(un)]
+        if m in SLOW_MODELS:
+            items = [copy.deepcopy(call), dict(op="seed", j=r.randrange(2 ** 32)), copy.deepcopy(call), copy.deepcopy(un)]
+        else:
+            items = [copy.deepcopy(call), dict(op="seed", j=r.randrange(2 ** 32)), copy.deepcopy(call),
+                     dict(op="draws", k=r.randrange(1, 5)), copy.deepcopy(call), copy.deepcopy(un),
+                     dict(op="seed", j=r.randrange(2 ** 32)), copy.deepcopy(un)]
         S.append(dict(kind="call", items=items))
-    S.append(dict(kind="call", items=[dict(op="call", model="output_node_noise_cmos", det="cmos", seed=7),
-                                      dict(op="draws", k=2),
-                                      dict(op="call", model="output_node_noise_cmos", det="cmos", seed=7)]))
+    # every seeded model at the boundary seeds (falsy 0, 1, largest)
+    bitems = []
+    for m in [x for x in CALL_MODELS if x not in SLOW_MODELS and x != "nghxrg2"]:
+        sd = SEEDS[len(bitems) % 3] if not quick else 0
+        bitems += [dict(op="call", model=m, seed=sd), dict(op="draws", k=1), dict(op="call", model=m, seed=sd)]
+    for k in range(0, len(bitems), 18):
+        S.append(dict(kind="call_boundary", items=bitems[k:k + 18]))
     # the known-defect scenarios
     em = dict(op="exposure", pipeline=[dict(k="model", model="simple_conversion", seed=1), dict(k="collect"),
                                       dict(k="model", model="emccd")], steps=1, pipeline_seed=5)
@@ -139,6 +330,9 @@ def gen_sessions(ctx: Ctx, budget: int, salt="cases"):
                      dict(k="collect")]
             cal2 = dict(cal, pipeline=pipe2)
             S.append(dict(kind="calibration_closed", items=[copy.deepcopy(cal2), dict(op="seed", j=9), copy.deepcopy(cal2)]))
+    S += gen_entry_sessions(r, quick)
+    S += gen_island_sessions(r, quick)
+    S += gen_xproc_sessions(r, quick)
     templates = ["exp_probe", "exp_models", "exp_nested", "exp_raise", "exp_closed", "exp_unseeded", "obs", "obs_dask",
                  "exp_models", "obs"]
     k = 0
@@ -165,14 +359,31 @@ def gen_sessions(ctx: Ctx, budget: int, salt="cases"):
         else:
             it = dict(op="observation", dask=(t == "obs_dask"), pipeline=gen_pipeline(r, r.choice(["none", "mixed"]), True, False),
                       values=[1, 2, 3][:r.choice([2, 3])], pipeline_seed=seed)
+        it["via"] = r.choice(ENTRIES)
+        if it["via"] in ("setter", "override"):
+            it["stale_seed"] = 77
         S.append(dict(kind=t, items=session_of(r, it, n=r.choice([2, 3]))))
+    for sess in S:
+        for it, cid in zip(sess["items"], cfg_ids(sess["items"])):
+            it["cfg"] = cid
     return S
 
 
 # ------------------------------------------------------------------------------------------ programs
 
+MODE_NAME = {"exposure": "exposure", "observation": "observation", "observation_dask": "observation_dask",
+             "calibration": "calibration"}
 
-def step_body(entries, step, base, facts):
+
+def entry_prog(e, step, base, i, seed_override=None):
+    if e.get("nodraw"):
+        return "Skip"
+    sd = e.get("seed") if seed_override is None else seed_override[0]
+    return f"(model_prog {mrow(e['model'])} {core.copt(sd, core.cz)} {base + 40 * step + i + 1})"
+
+
+def step_body(entries, step, base, facts, sweep=None):
+    """sweep = (index of the entry whose seed is swept, value) for observations sweeping a model seed."""
     ps = []
     for i, e in enumerate(entries):
         if e["k"] == "probe":
@@ -181,9 +392,16 @@ def step_body(entries, step, base, facts):
         elif e["k"] == "fail":
             ps.append("Raise" if e.get("at_step") in (None, step) else "Skip")
         elif e["k"] == "model" and e["model"] != "emccd":
-            sd = core.copt(e.get("seed"), core.cz)
-            ps.append(f"(model_prog {mrow(e['model'])} {sd} {base + 40 * step + i + 1})")
+            so = (sweep[1],) if sweep is not None and sweep[0] == i else None
+            ps.append(entry_prog(e, step, base, i, so))
     return "(seq_all " + core.clist(ps) + ")"
+
+
+def arriving_seed(it, mode: str) -> str:
+    """The seed that reaches set_random_seed, computed IN COQ from the regenerated link table, the door the
+    seed came through and the seed given."""
+    sd = core.copt(it.get("pipeline_seed"), core.cz)
+    return f'(seed_through src_links "{mode}" "{it.get("via", "ctor")}" {sd})'
 
 
 def item_prog(it, cfg_id, facts) -> str:
@@ -192,22 +410,25 @@ def item_prog(it, cfg_id, facts) -> str:
         return f"(BareSeed {core.cz(it['j'])})"
     if op == "draws":
         return f"(repeat_prog {int(it['k'])} (Draw 0))"
-    sd = core.copt(it.get("pipeline_seed"), core.cz)
     base = 100000 * (cfg_id + 1)
     if op == "exposure":
         bodies = [step_body(it["pipeline"], s, base, facts) for s in range(it.get("steps", 1))]
-        return f'(mode_prog MExposure (forwards_of src_links "exposure") {sd} {core.clist(bodies)})'
+        return f'(mode_prog MExposure true {arriving_seed(it, "exposure")} {core.clist(bodies)})'
     if op == "observation":
-        bodies = [step_body(it["pipeline"], 0, base, facts) for _ in it["values"]]
+        sw = it.get("sweep_seed")
+        if sw:
+            bodies = [step_body(it["pipeline"], 0, base, facts, sweep=(sw["index"], int(v))) for v in sw["values"]]
+        else:
+            bodies = [step_body(it["pipeline"], 0, base, facts) for _ in it["values"]]
         if it.get("dask"):
-            return f'(mode_prog MObservationDask (forwards_of src_links "observation_dask") {sd} {core.clist(bodies)})'
-        return f'(mode_prog MObservation (forwards_of src_links "observation") {sd} {core.clist(bodies)})'
+            return f'(mode_prog MObservationDask true {arriving_seed(it, "observation_dask")} {core.clist(bodies)})'
+        return f'(mode_prog MObservation true {arriving_seed(it, "observation")} {core.clist(bodies)})'
     if op == "call":
         return f"(model_prog {mrow(it['model'])} {core.copt(it.get('seed'), core.cz)} {base})"
     if op == "calibration":
         n = it.get("pop", 7) * 2
         bodies = [step_body(it["pipeline"], 0, base + 1000 * (vi + 1), facts) for vi in range(n)]
-        return f'(mode_prog MCalibration (forwards_of src_links "calibration") {sd} {core.clist(bodies)})'
+        return f'(mode_prog MCalibration true {arriving_seed(it, "calibration")} {core.clist(bodies)})'
     raise ValueError(op)
 
 
@@ -219,20 +440,41 @@ def flags(it):
     if op == "call":
         return it.get("seed") is not None, False
     seeded = it.get("pipeline_seed") is not None
+    sw = it.get("sweep_seed")
     closed = (not seeded) and all(
-        (e["k"] != "probe" or int(e.get("draw", 0)) == 0) and (e["k"] != "model" or (e.get("seed") is not None and e["model"] != "emccd"))
-        for e in it["pipeline"])
+        (e["k"] != "probe" or int(e.get("draw", 0)) == 0)
+        and (e["k"] != "model" or e.get("nodraw") or (e.get("seed") is not None and e["model"] != "emccd")
+             or (sw is not None and sw["index"] == i))
+        for i, e in enumerate(it["pipeline"]))
     return seeded, closed
+
+
+def semantic(it):
+    d = {k: v for k, v in it.items() if k not in NON_SEMANTIC}
+    if "pipeline" in d:
+        d["pipeline"] = [{k: v for k, v in e.items() if k not in NON_SEMANTIC_ENTRY} for e in d["pipeline"]]
+    return d
 
 
 def cfg_ids(items):
     ids, m = [], {}
     for it in items:
-        key = json.dumps(it, sort_keys=True)
+        key = json.dumps(semantic(it), sort_keys=True)
         if key not in m:
             m[key] = len(m)
         ids.append(m[key])
     return ids
+
+
+def aux_of(it, o):
+    """(model side as a Coq term, implementation side) of the island assignment of a calibration."""
+    aux = o.get("aux")
+    if not aux or it.get("op") != "calibration":
+        return "[]", "[]"
+    branch = "sequential" if it.get("parallel") is False else "parallel"
+    order = core.clist(f"{int(k)}%nat" for k in aux["order"])
+    model = f'(island_assignment src_island_build "{branch}" {int(aux["n"])} {order})'
+    return model, core.clist(core.cz(int(x)) for x in aux["assignment"])
 
 
 def emit_case(sess, obs, facts) -> str:
@@ -240,13 +482,27 @@ def emit_case(sess, obs, facts) -> str:
     rows = []
     for it, o, cid in zip(sess["items"], obs["items"], ids):
         seeded, closed = flags(it)
+        m_aux, o_aux = aux_of(it, o)
         rows.append(
-            "{| it_run := %s; it_prog := %s; it_seeded := %s; it_closed := %s; it_cfg := %d; ob_pre := %d; "
-            "ob_inner := %s; ob_post := %d; ob_draws := %s; ob_res := %s; ob_raised := %s |}" % (
-                core.cbool(o["run"]), item_prog(it, cid, facts), core.cbool(seeded), core.cbool(closed), cid, o["pre"],
+            "{| it_run := %s; it_prog := %s; it_seeded := %s; it_closed := %s; it_cfg := %d; it_proc := %d; "
+            "it_aux := %s; ob_pre := %d; ob_inner := %s; ob_post := %d; ob_draws := %s; ob_res := %s; "
+            "ob_raised := %s; ob_aux := %s; it_collapse := %s; ob_trace := %s |}" % (
+                core.cbool(o["run"]), item_prog(it, cid, facts), core.cbool(seeded), core.cbool(closed), cid,
+                int(it.get("proc", 0)), m_aux, o["pre"],
                 core.clist(str(x) for x in o["inner"]), o["post"], core.clist(str(x) for x in o["draws"]),
-                core.cz(o["res"]), core.cbool(o["raised"])))
+                core.cz(o["res"]), core.cbool(o["raised"]), o_aux, core.cbool(it.get("op") == "calibration" or bool(it.get("dask"))),
+                trace_lit(o.get("trace", []))))
     return "[" + ";\n   ".join(rows) + "]"
+
+
+def trace_lit(tr) -> str:
+    out = []
+    for t, kind, sd in tr:
+        if kind == "enter":
+            out.append(f"BEnter {int(t)} {core.cz(-1 if sd is None else int(sd))}")
+        else:
+            out.append(f"BExit {int(t)}")
+    return core.clist(out)
 
 
 def emit_file(pairs, facts) -> str:
@@ -255,7 +511,8 @@ def emit_file(pairs, facts) -> str:
             "From PyxelGen Require Import Gen_C04.\nImport ListNotations.\nOpen Scope Z_scope.\n"
             f"Definition cases : list (list item) := [\n  {body}\n].\n"
             "Eval vm_compute in mismatches src_srs_cfg cases.\n"
-            "Eval vm_compute in violations cases.\n")
+            "Eval vm_compute in violations cases.\n"
+            "Eval vm_compute in interleaved cases.\n")
 
 
 # ------------------------------------------------------------------------------------------ classification
@@ -270,40 +527,105 @@ def classify(sess, obs):
     def uses(it):
         return "emccd" if any(e.get("model") == "emccd" for e in it.get("pipeline", [])) else (it.get("model") or "plain")
 
+    def extra(it):
+        d = dict(op=it["op"], uses=uses(it))
+        if it["op"] == "calibration":
+            d["seeded"] = it.get("pipeline_seed") is not None
+            d["islands"] = int(it.get("islands", 1))
+        return d
+
+    def aux(o):
+        return (o.get("aux") or {}).get("assignment")
+
     for i, (it, o) in enumerate(zip(items, ob)):
         if o["run"] and (fl[i][0] or fl[i][1]) and o["pre"] != o["post"]:
-            return "not_restored", [i], dict(op=it["op"], uses=uses(it), raised=o["raised"])
+            return "not_restored", [i], dict(extra(it), raised=o["raised"], via=it.get("via", "ctor"),
+                                             seed_class=seed_class(it))
     for i in range(len(items)):
         for j in range(i + 1, len(items)):
             a, b = ob[i], ob[j]
             if not (a["run"] and b["run"] and ids[i] == ids[j]):
                 continue
-            if fl[i][0] and (a["res"] != b["res"] or a["raised"] != b["raised"] or a["draws"] != b["draws"]):
-                return "not_reproducible", [i, j], dict(op=items[i]["op"], uses=uses(items[i]))
-            if not fl[i][0] and a["pre"] != b["pre"] and a["post"] == b["post"]:
-                return "made_deterministic", [i, j], dict(op=items[i]["op"], uses=uses(items[i]))
+            det = fl[i][0] or fl[i][1]
+            if det and (a["res"] != b["res"] or a["raised"] != b["raised"] or a["draws"] != b["draws"] or aux(a) != aux(b)):
+                d = extra(items[i])
+                if items[i].get("proc", 0) != items[j].get("proc", 0):
+                    d["across"] = "processes"
+                elif items[i].get("via", "ctor") != items[j].get("via", "ctor"):
+                    d["across"] = "entries"
+                    d["via"] = sorted([items[i].get("via", "ctor"), items[j].get("via", "ctor")])
+                elif aux(a) != aux(b) or items[i].get("delay") != items[j].get("delay") \
+                        or items[i].get("predelay") != items[j].get("predelay") \
+                        or items[i].get("parallel") != items[j].get("parallel"):
+                    d["across"] = "island_completion_orders"
+                return "not_reproducible", [i, j], d
+            if not fl[i][0] and not fl[i][1] and a["pre"] != b["pre"] and a["post"] == b["post"]:
+                return "made_deterministic", [i, j], extra(items[i])
     return "unclassified", list(range(len(items))), dict(op="?")
+
+
+def seed_class(it):
+    s = it.get("pipeline_seed", it.get("seed"))
+    return "none" if s is None else "0" if s == 0 else "1" if s == 1 else "2^32-1" if s == 2 ** 32 - 1 else "other"
 
 
 def to_violation(sess, obs) -> Violation:
     clause, idx, extra = classify(sess, obs)
     last = max(idx)
-    case = dict(kind=sess["kind"], items=sess["items"][:last + 1])
-    observed = dict(items=obs["items"][:last + 1], offending_items=idx)
+    # keep everything up to the last offending item (the generator state is carried along the session)
+    keep = list(range(last + 1))
+    case = dict(kind=sess["kind"], items=[sess["items"][i] for i in keep])
+    if sess.get("procs"):
+        case["procs"] = sess["procs"]
+    observed = dict(items=[obs["items"][i] for i in keep], offending_items=[keep.index(i) for i in idx])
     it = sess["items"][idx[0]]
     return Violation(
         clause=clause, case=case, observed=observed,
         expected="seeded items: generator state after = before, and equal results/draws for equal configurations "
-                 "from any prior state; unseeded items must not end in the same state from different prior states",
-        what=f"{clause}: {it['op']} {json.dumps({k: v for k, v in it.items() if k != 'pipeline'})[:160]}",
+                 "from any prior state, in any interpreter process (PYTHONHASHSEED), through any entry (constructor, "
+                 "YAML, setter, override), for any completion order of the island threads; unseeded items must not end "
+                 "in the same state from different prior states",
+        what=f"{clause}: {it['op']} {json.dumps({k: v for k, v in it.items() if k != 'pipeline'})[:200]}"
+             + (f" [{extra.get('across')}]" if extra.get("across") else ""),
         sig=dict(clause=clause, **extra))
 
 
 # ------------------------------------------------------------------------------------------ legs
 
 
+def session_cost(sess) -> float:
+    c = 0.0
+    for it in sess["items"]:
+        op = it["op"]
+        if op == "calibration":
+            c += 3.0 + 1.5 * int(it.get("islands", 1)) + sum(it.get("delay", []))
+        elif op == "call":
+            c += 3.0 if it["model"] in SLOW_MODELS else 0.2
+        elif op in ("exposure", "observation"):
+            c += 0.4
+    return c + 6.0 * len(sess.get("procs", []))
+
+
+def balanced_order(sessions, workers):
+    """Indices of the sessions, dealt over the workers in snake order by decreasing cost, so that run_driver's
+    contiguous chunks have similar total cost."""
+    idx = sorted(range(len(sessions)), key=lambda i: -session_cost(sessions[i]))
+    bins = [[] for _ in range(workers)]
+    for k, i in enumerate(idx):
+        rnd, pos = divmod(k, workers)
+        bins[pos if rnd % 2 == 0 else workers - 1 - pos].append(i)
+    size = max(len(b) for b in bins)
+    # run_driver cuts chunks of ceil(n/workers): move items so that every bin but the last ones has that size
+    flat = [i for b in bins for i in b]
+    return flat
+
+
 def correspondence(ctx: Ctx, sessions, facts, tag="c"):
-    obs = core.run_driver(ctx, "c04", sessions, workers=8, timeout=600)
+    order = balanced_order(sessions, 8)
+    got = core.run_driver(ctx, "c04", [sessions[i] for i in order], workers=8, timeout=600)
+    obs = [None] * len(sessions)
+    for i, o in zip(order, got):
+        obs[i] = o
     pairs = []
     for s, o in zip(sessions, obs):
         if "crash" in o or "driver_error" in o:
@@ -318,17 +640,35 @@ def correspondence(ctx: Ctx, sessions, facts, tag="c"):
     for k, name in enumerate(sorted(files)):
         ok, evals, se = res[name]
         chunk = pairs[k * per:(k + 1) * per]
-        if not ok or len(evals) != 2:
+        if not ok or len(evals) != 3:
             ctx.broken.append(Broken("correspondence", f"case file {name}.v did not evaluate", core.tail(se, 15)))
             continue
         mism += [chunk[i] for i in core.parse_int_list(evals[0]) if not chunk[i][0].get("no_model")]
         viol += [chunk[i] for i in core.parse_int_list(evals[1])]
+        for i in core.parse_int_list(evals[2]):
+            if not chunk[i][0].get("no_model"):
+                ctx.broken.append(Broken(
+                    "assumption", "one thread of control over the process-wide generator",
+                    f"the np.random.seed / set_state calls observed in a {chunk[i][0]['kind']} session are not LIFO: "
+                    "brackets of different threads interleave (hypothesis of C04_one_thread_of_control; C07)",
+                    dict(case=chunk[i][0], observed=chunk[i][1])))
     for s, o in pairs:
         runs = [x for x in o["items"] if x["run"]]
         ctx.count("evaluations", len(runs))
         ctx.count("sessions")
         ctx.dist("session_kind", s["kind"])
         ctx.dist("raised_runs", sum(1 for x in runs if x["raised"]))
+        if s.get("procs"):
+            ctx.dist("interpreter_processes_per_session", len(s["procs"]))
+            for h in o.get("hashseeds", []):
+                ctx.dist("hashseed_class", "0" if str(h) == "0" else "small" if int(h) < 1000 else "large")
+        for it, oi in zip(s["items"], o["items"]):
+            if it["op"] in ("exposure", "observation", "calibration"):
+                ctx.dist("seed_entry", it.get("via", "ctor"))
+            if oi.get("aux"):
+                ax = oi["aux"]
+                ctx.dist("island_completion", "in_order" if ax["order"] == sorted(ax["order"]) else "out_of_order")
+                ctx.dist("island_creation", "sequential" if it.get("parallel") is False else "parallel")
         for it in s["items"]:
             ctx.dist("op", it["op"])
             if it.get("pipeline_seed") is not None:
@@ -352,12 +692,15 @@ def static_violations(ctx: Ctx, facts):
                 what=f"{r['name']}: {r['outside']} draw site(s) outside the bracket, {r['bare_seed']} bare reseeding call(s), "
                      f"bracket given seed: {r['bracket_seed']}",
                 sig=dict(clause="model_not_bracketed", model=r["name"])))
-    for m, l, ok in facts.get("links", []):
-        if not ok and not (m == "calibration" and l == "Calibration.run_calibration -> ModelFittingDataTree"):
+    for m, e, l, x in facts.get("links", []):
+        if x != "XId":
             ctx.violations.append(Violation(
-                clause="seed_not_forwarded", case=dict(mode=m, link=l), observed="pipeline_seed not passed on",
-                expected="every link between the mode and set_random_seed passes the seed on",
-                what=f"{m}: {l} drops the seed", sig=dict(clause="seed_not_forwarded", mode=m, link=l)))
+                clause="seed_not_forwarded", case=dict(mode=m, entry=e, link=l, transfer=x),
+                observed="pipeline_seed not passed on" if x == "XDrop" else "pipeline_seed passed on only if truthy: the legal seed 0 becomes None",
+                expected="every link between the way a seed is given (constructor, YAML, setter, override) and "
+                         "set_random_seed passes every seed on unchanged, 0 included",
+                what=f"{m}{'/' + e if e else ''}: {l} " + ("drops the seed" if x == "XDrop" else "loses the seed 0 (truthiness test)"),
+                sig=dict(clause="seed_not_forwarded", mode=m, link=l, entry=e, transfer=x)))
 
 
 def run(ctx: Ctx):
@@ -367,8 +710,13 @@ def run(ctx: Ctx):
     ctx.assumptions += [
         "seeds in 0 .. 2^32-1 (np.random.seed's domain); calibration seeds in 0 .. 100000",
         "single-threaded execution (dask synchronous scheduler); concurrent brackets are C07 / F16",
-        "model functions are driven on a 3x3 detector; nghxrg, cosmix, charge_deposition*, radiation_induced_dark_current, "
-        "dark_current (its output is almost noise-free on a tiny frame), dark_current_rule07, the SAPHIRA models and conversion_with_qe_map are covered by the regenerated bracket table only",
+        "all 17 model functions with a seed parameter are driven directly (3x3 / 6x6 / 16x16 detectors of the kind each "
+        "needs) from different prior states, at the boundary seeds and in several interpreter processes",
+        "multi-island calibrations use a deterministic pipeline and no pipeline seed: the island threads would otherwise "
+        "interleave their brackets on the one process-wide generator (C07 / F16); what is judged there is the optimiser "
+        "seed: island i must have the i-th derived seed whatever order the island threads start and finish in",
+        "a calibration's lazy champion data are not materialised (doing so fails in pyxel with KeyError 'pixel' for "
+        "with_inherited_coords=True; not a C04 matter): its result is the champions' decision/fitness/parameters",
     ]
     gen, facts = {}, None
     try:
@@ -378,11 +726,11 @@ def run(ctx: Ctx):
         ctx.broken.append(Broken("translation", "seed brackets / seed forwarding (translator/c04.py)", str(ex)))
         ctx.log("translation failed:", ex)
         gen["Gen_C04.v"] = tr.FALLBACK
-        facts = dict(models=[], seed_sites=[], links=[])
+        facts = dict(models=[], seed_sites=[], links=[], seed_truthiness=[], island_build=[])
     core.proof_leg(ctx, gen, PROP_FILE)
     static_violations(ctx, facts)
 
-    sessions = gen_sessions(ctx, ctx.budget(44, 160))
+    sessions = gen_sessions(ctx, ctx.budget(64, 220))
     mism, viol, pairs = correspondence(ctx, sessions, facts)
     distinct = {json.dumps(s["items"], sort_keys=True) for s, _ in pairs
                 if sum(1 for it in s["items"] if it["op"] not in ("seed", "draws")) >= 2}
@@ -390,6 +738,9 @@ def run(ctx: Ctx):
     ctx.cov["rule"] = ("a session is non-trivial if it repeats a run / model call at least twice from different prior "
                        "generator states (fresh, after np.random.seed(j), after k draws); distinct = distinct item lists")
     ctx.cov["traces_validated_against_impl"] = len(pairs)
+    ctx.cov["bracket_operations_observed"] = sum(len(x.get("trace", [])) for _, o in pairs for x in o["items"])
+    ctx.cov["threads_seen_using_brackets"] = max([1 + max([e[0] for e in x.get("trace", [])] or [-1])
+                                                  for _, o in pairs for x in o["items"]] or [0])
     ctx.cov["disagreements_checked"] = len(mism)
     ctx.cov["models_in_table"] = len(facts.get("models", []))
     ctx.cov["models_driven_directly"] = len(CALL_MODELS) + 1
@@ -414,7 +765,7 @@ def new_violations(ctx: Ctx):
 
 def search(ctx: Ctx, facts):
     ctx.log("searching for a concrete failing input (more sessions, other seeds and prior states)")
-    sessions = gen_sessions(ctx, ctx.budget(90, 240), salt="search")
+    sessions = gen_sessions(ctx, ctx.budget(100, 260), salt="search")
     mism, viol, pairs = correspondence(ctx, sessions, facts, tag="s")
     for s, o in viol:
         ctx.violations.append(to_violation(s, o))
@@ -460,20 +811,32 @@ META = dict(
         "body program and every prior state: set_random_seed as coded (its shape is re-read from the source on every run) "
         "restores the generator also when the body raises, makes draws/probed states/outcome independent of the prior "
         "state, nests, and is transparent for seed None; by structural induction every program whose draws all sit under "
-        "seeded brackets is reproducible and leak-free; hence exposure, sequential and dask observation are reproducible "
-        "with the seed each mode ACTUALLY forwards (call-chain table regenerated from the source), and all 17 model "
-        "functions with a seed parameter are bracketed (table regenerated). The calibration instance is REFUTED on the "
-        "unchanged tree (run_calibration drops pipeline_seed) with the full statement kept and the true restriction proved. "
-        "The tie to the running code is by correspondence (testing): equality patterns of hashed np.random states, draw "
-        "values and results over sessions of repeated runs from different prior states are compared inside Coq with the "
-        "model on the free generator and judged against the specification."),
+        "seeded brackets is reproducible and leak-free, and - if no part of it runs in an order the process chooses "
+        "(iteration over a set: PYTHONHASHSEED) - also from one interpreter process to another, with a refutation showing "
+        "the condition is needed; hence exposure, sequential and dask observation and calibration are reproducible with "
+        "the seed each mode ACTUALLY receives: the call-chain table (regenerated from the source) records for the "
+        "constructor, the YAML builder, the attribute setter and the override key what each link does to the seed "
+        "(identity / truthiness test that loses the legal seed 0 / drop), and the seed arriving at the bracket is proved to be "
+        "the seed given for every entry and every seed; no seed is tested for truthiness anywhere; all 17 model functions "
+        "with a seed parameter are bracketed, hand their own seed to the bracket and iterate over no hash-ordered "
+        "collection (tables regenerated); no np.random.seed outside the bracket; ArchipelagoDataTree._build (both "
+        "branches, read from the source) pushes the islands in submission order, so island i has the i-th derived seed "
+        "for every completion order of the island threads (proved; pushing in completion order is refuted). Still "
+        "refuted on the current tree: draws inside numba-compiled functions (EMCCD registers). The tie to the running "
+        "code is by correspondence (testing): equality patterns of hashed np.random states, draw values, results and "
+        "island seeds over sessions of repeated runs - from different prior states, in fresh interpreter processes with "
+        "different PYTHONHASHSEED values, with the seed given through every entry at 0, 1, 2^32-1, with the island threads "
+        "forced to finish in different orders - are compared inside Coq with the model on the free generator and judged "
+        "against the specification."),
     level_note=(
-        "Trusted: Coq kernel + vm_compute; translator/c04.py (helper calls followed by name: over-approximation); the "
-        "driver and probes. Not carried: MT19937 itself, pygmo's generator, numba's private generator (the EMCCD models "
-        "draw from it: known finding), thread interleavings (C07). Ten of the 17 seeded model functions are only covered "
-        "by the bracket table, not driven. pulse_processing's np.random.seed(42) is established statically (importing the "
-        "module triggers a very long superconductor computation, so it is not executed)."),
-    technique="Coq proof over an abstract-generator program semantics + regenerated bracket/forwarding tables + in-Coq "
-              "correspondence of state-equality patterns",
+        "Trusted: Coq kernel + vm_compute; translator/c04.py (helper calls followed by name: over-approximation; set "
+        "expressions recognised syntactically); the driver (child interpreters, wrappers around pygmo.island.__init__ and "
+        "ArchipelagoDataTree._build installed from outside) and probes. Not carried: MT19937 itself, pygmo's generator, "
+        "numba's private generator (the EMCCD models draw from it: known finding), thread interleavings of brackets on "
+        "the one process-wide generator (C07): the bracket theorems speak about ONE thread of control - between "
+        "get_state and set_state nothing else touches the generator. pulse_processing is never executed by the check "
+        "(one call takes minutes); it is covered by the regenerated table of np.random.seed sites."),
+    technique="Coq proof over an abstract-generator program semantics + regenerated bracket/forwarding/seed-entry/"
+              "island-order tables + in-Coq correspondence of state-equality patterns, incl. across interpreter processes",
     design_ref="DESIGN.md section 6, C04; section 7 F1, F16",
 )
